@@ -23,6 +23,10 @@ TPL = {
     # mode settings in the comment
     "no-run": '~ run-mode: no-run ~ $SYM[*][ push("s", line_number()) gt(line_number(), @k) print("p $.csvpath.line_number") ]',
     "no-matches": '~ return-mode: no-matches ~ $SYM[*][ push("s", line_number()) gt(line_number(), @k) push.onmatch("m", line_number()) ]',
+    # unmatched lines kept, the stop lands on a line that is not returned
+    "keep-stop": '~ unmatched-mode: keep ~ $SYM[*][ push("s", line_number()) stop(@k == line_number()) gt(line_number(), @n) ]',
+    # the csvpath projects the line with collect(): the yielded lists must stay what they were when yielded
+    "collect-fn": '$SYM[*][ collect(0) gt(line_number(), @k) ]',
     "onmatch-reject": '$SYM[*][ push("s", line_number()) gt(line_number(), @k) skip.onmatch(@n == line_number()) push("t", line_number()) ]',
 }
 
@@ -32,7 +36,8 @@ def _state(p, pr):
     for k, v in p.variables.items():
         vs[k] = list(v) if isinstance(v, (list, tuple)) else v
     errs = [(e.line_count, e.match_count, e.scan_count) for e in (p.errors or [])]
-    return (vs, p.scan_count, p.match_count, p.is_valid, p.stopped, errs, list(pr.lines))
+    um = None if p.unmatched is None else [list(x) for x in p.unmatched]
+    return (vs, p.scan_count, p.match_count, p.is_valid, p.stopped, errs, list(pr.lines), p.line_monitor.physical_line_number)
 
 
 def _recs(b1, b3):
@@ -47,12 +52,12 @@ def _recs(b1, b3):
     post="_",
     bound="6 stub records (2 symbolic blank flags), firing line k KLO..KHI and advance count n 0..NHI symbolic; templates "
     "with stop, skip, advance, last, print, fail, error-provoking component; compared: returned lines and the tuple "
-    "(variables, scan_count, match_count, is_valid, stopped, errors, printouts)",
+    "(variables, scan_count, match_count, is_valid, stopped, errors, printouts, last line number read)",
     outside="more than 6 records; other templates",
     encodes=["csvpath/csvpath.py:CsvPath.collect/next/fast_forward/_consider_line/finalize", "csvpath/util/line_spooler.py:ListLineSpooler.append"],
     tiers={
-        "quick": {"timeout": 900, "K": {"KLO": -1, "KHI": 6, "NHI": 3}, "shards": product(tpl=[t for t in TPL if t not in ("advance", "onmatch-reject")], n=[0], b1=[False]) + product(tpl=["advance", "onmatch-reject"], b1=[False])},
-        "thorough": {"timeout": 3000, "K": {"KLO": -2, "KHI": 7, "NHI": 6}, "shards": product(tpl=[t for t in TPL if t not in ("advance", "onmatch-reject")], n=[0]) + product(tpl=["advance", "onmatch-reject"])},
+        "quick": {"timeout": 900, "K": {"KLO": -1, "KHI": 6, "NHI": 3}, "shards": product(tpl=[t for t in TPL if t not in ("advance", "onmatch-reject", "keep-stop")], n=[0], b1=[False]) + product(tpl=["advance", "onmatch-reject", "keep-stop"], b1=[False])},
+        "thorough": {"timeout": 3000, "K": {"KLO": -2, "KHI": 7, "NHI": 6}, "shards": product(tpl=[t for t in TPL if t not in ("advance", "onmatch-reject", "keep-stop")], n=[0]) + product(tpl=["advance", "onmatch-reject", "keep-stop"])},
     },
 )
 def three_ways(tpl: str, k: int, n: int, b1: bool, b3: bool) -> bool:
@@ -64,7 +69,7 @@ def three_ways(tpl: str, k: int, n: int, b1: bool, b3: bool) -> bool:
     p2, pr2 = fresh(TPL[tpl], recs)
     p2.variables["k"] = k
     p2.variables["n"] = n
-    l2 = [l[:] for l in p2.next()]
+    l2 = list(p2.next())  # the yielded lists are kept as they are and compared after the run
     p3, pr3 = fresh(TPL[tpl], recs)
     p3.variables["k"] = k
     p3.variables["n"] = n
